@@ -204,7 +204,7 @@ class Ctx:
         """An armed absence test is believed only where the function it looked at is (nearly) the reviewed function:
         see fdiff.  Files without a function-level reference (.hy sources) are taken as recognised."""
         src = getattr(self, "src", None)
-        if src is None or not file or not str(file).endswith((".py", ".hy")) or os.environ.get("HYVERIF_ALL_STRICT"):
+        if src is None or not file or not str(file).endswith((".py", ".hy")) or os.environ.get("HYVERIF_NO_GATE"):
             return True
         try:
             from . import fdiff
